@@ -409,6 +409,7 @@ func (d *Driver) Check(id, tier string) int {
 	var mu sync.Mutex
 	var wg sync.WaitGroup
 	deaths := []int{}
+	knownEarly := LoadFindings()
 	violRuns := 0
 	var stopEarly atomic.Bool
 	deathCapNoted := false
@@ -462,8 +463,11 @@ func (d *Driver) Check(id, tier string) int {
 					r.stderr = ""
 					mu.Lock()
 					agg.add(&r)
-					if len(r.Violations) > 0 {
-						violRuns++
+					for _, v := range r.Violations {
+						if knownEarly.Match(rid, v.Sig) == nil { // known findings do not count
+							violRuns++
+							break
+						}
 					}
 					enough := violRuns >= 24
 					mu.Unlock()
